@@ -35,6 +35,18 @@ MAP = {
     "receipt/handler.go": "C19", "featureflag/featureflag.go": "C17", "featureflag/flags.go": "C17",
     "cmd/main.go": "C15 C17 C19 C08",
 }
+# stage C: the complete quick checks (wire, scheduled, race and binary parts included) most likely to see the file
+MAPC = {
+    "models/session.go": "C07 C09 C02 C01 C06", "models/entity.go": "C12 C13 C09 C10", "models/id.go": "C10 C07",
+    "models/participant.go": "C02 C14", "models/signed_latency.go": "C18",
+    "websocket/realtime.go": "C08 C04 C07 C09 C02 C18", "websocket/handler.go": "C08 C04 C02 C06 C11",
+    "modules/vikja/vikja.go": "C16 C08", "modules/vikja/state.go": "C16 C09", "modules/odal/odal.go": "C16 C08", "modules/odal/state.go": "C16 C09",
+    "modules/dagaz/dagaz.go": "C20 C08 C04 C09", "modules/dagaz/math.go": "C20 C08", "modules/dagaz/grid_spatial_partition.go": "C20 C08",
+    "modules/dagaz/state.go": "C20 C09", "http/auth.go": "C15", "http/http.go": "C15 C08", "http/handler.go": "C15",
+    "receipt/handler.go": "C19", "featureflag/featureflag.go": "C17", "featureflag/flags.go": "C17",
+    "cmd/main.go": "C15 C17 C19 C08 C16 C18 C20",
+}
+BINARY_ONLY = {"cmd/main.go"}  # only the parts that run the executable can see these
 lock = threading.Lock()
 
 def mutants():
@@ -60,13 +72,32 @@ def done(stage):
     p = os.path.join(OUT, stage + ".jsonl")
     return {json.loads(l)["id"]: json.loads(l) for l in open(p)} if os.path.exists(p) else {}
 
+HEAD = None  # stage C: export of the CURRENT /repo HEAD (later repairs included); mutants are re-located in it
+
 def scratch(worker, m):
     d = os.path.join(WORK, f"w{STAGE}{worker}")
-    subprocess.run(["rsync", "-a", "--delete", "--exclude", ".git", REPO + "/", d + "/"], check=True)
+    root = HEAD or REPO
+    subprocess.run(["rsync", "-a", "--delete", "--exclude", ".git", root + "/", d + "/"], check=True)
     p = os.path.join(d, m["file"])
     src = open(p, "rb").read()
-    assert src[m["start"]:m["end"]].decode() == m["old"], "mutant list is stale"
-    open(p, "wb").write(src[:m["start"]] + m["new"].encode() + src[m["end"]:])
+    start, end = m["start"], m["end"]
+    if HEAD:
+        base = open(os.path.join(REPO, m["file"]), "rb").read()
+        ls = base.rfind(b"\n", 0, start) + 1
+        le = base.find(b"\n", end)
+        line = base[ls:le if le >= 0 else len(base)]          # the whole source line(s) of the mutated text
+        rel = start - ls
+        # the same line text in the current file, nearest to the original position
+        cands, pos = [], src.find(line)
+        while pos >= 0:
+            cands.append(pos)
+            pos = src.find(line, pos + 1)
+        if not cands:
+            raise RuntimeError("the mutated line was changed by a later repair")
+        pos = min(cands, key=lambda x: abs(x - ls))
+        start, end = pos + rel, pos + rel + (m["end"] - m["start"])
+    assert src[start:end].decode() == m["old"], "mutant list is stale"
+    open(p, "wb").write(src[:start] + m["new"].encode() + src[end:])
     return d
 
 def stageA(worker, m):
@@ -115,7 +146,7 @@ def run_checks(worker, m, stage):
     d = scratch(worker, m)
     bdir = os.path.join(VERIF, ".build-" + hashlib.sha1(d.encode()).hexdigest()[:8])
     shutil.rmtree(bdir, ignore_errors=True)
-    env = dict(ENV, VERIF_REPO=d, **({"VERIF_SCALE": "0.3"} if stage == "B" else {}), VERIF_EVIDENCE_DIR=os.path.join(WORK, f"ev{stage}{worker}"), VERIF_BUILD_KINDS="plain" if stage == "B" else "plain race sched")
+    env = dict(ENV, VERIF_REPO=d, **({"VERIF_SCALE": "0.3"} if stage == "B" else {}), VERIF_EVIDENCE_DIR=os.path.join(WORK, f"ev{stage}{worker}"), VERIF_BUILD_KINDS="plain" if (stage == "B" or m["file"] in BINARY_ONLY) else "plain race sched")
     res = {k: m[k] for k in ("id", "file", "line", "op", "old", "new")}
     res["checks"] = {}
     t0 = time.time()
@@ -126,9 +157,11 @@ def run_checks(worker, m, stage):
         env["VERIF_SKIP_BUILD"] = "1"
         sys.path.insert(0, os.path.join(VERIF, "tools"))
         from registry import PROPS
-        for prop in MAP[m["file"]].split():
+        for prop in (MAP if stage == "B" else MAPC)[m["file"]].split():
             parts = PROPS[prop]["parts"]
-            if stage == "B":
+            if stage == "C" and m["file"] in BINARY_ONLY:
+                cmds = [[os.path.join(VERIF, "check"), prop, "--part", p["name"]] for p in parts if p["name"] in ("binary", "binidle")]
+            elif stage == "B":
                 names = ("H", "inproc", "verify", "grid", "prim", "shared", "ids", "forward")
                 if m["file"] == "websocket/handler.go":
                     names = ("W", "Wburst", "Wtie", "Wbp")  # the connection loop is only exercised by the wire driver
@@ -136,6 +169,8 @@ def run_checks(worker, m, stage):
                 cmds = [[os.path.join(VERIF, "check"), prop, "--part", p["name"]] for p in parts]
             else:
                 cmds = [[os.path.join(VERIF, "check"), prop]]
+            if stage == "C" and m["file"] in BINARY_ONLY:
+                pass
             for c in cmds:
                 r = subprocess.run(c, env=env, capture_output=True, text=True, cwd=VERIF)
                 key = prop + ("/" + c[3] if len(c) > 3 else "")
@@ -157,9 +192,14 @@ STAGE = ""
 def main():
     global STAGE
     stage, workers = sys.argv[1], int(sys.argv[2])
-    STAGE = stage
+    STAGE = stage + os.environ.get("SWEEP_TAG", "")  # scratch directory names: lets two invocations of one stage run side by side
     only = set(sys.argv[3:])
     ms = mutants()
+    if stage in ("B", "C"):
+        global HEAD
+        HEAD = os.path.join(WORK, "head" + os.environ.get("SWEEP_TAG", "") + stage)
+        shutil.rmtree(HEAD, ignore_errors=True); os.makedirs(HEAD)
+        subprocess.run("git -C /repo archive HEAD | tar -x -C " + HEAD, shell=True, check=True)
     if stage == "A":
         todo = [m for m in ms if m["id"] not in done("A")]
     elif stage == "A2":
@@ -172,7 +212,10 @@ def main():
         todo.sort(key=lambda m: next((i for i, p in enumerate(prio) if m["file"].startswith(p)), 99))
     else:
         b = done("B"); c = done("C")
-        todo = [m for m in ms if b.get(m["id"], {}).get("verdict") == "not caught" and m["id"] not in c]
+        skip = ("http/http.go", "http/handler.go")  # server start/stop, health/ready/version endpoints: no listed property
+        todo = [m for m in ms if b.get(m["id"], {}).get("verdict") == "not caught" and m["id"] not in c and m["file"] not in skip]
+        prio = ["websocket/realtime.go", "websocket/handler.go", "models/", "modules/vikja", "modules/odal", "http/", "receipt/", "featureflag/", "modules/dagaz/", "cmd/"]
+        todo.sort(key=lambda m: next((i for i, p in enumerate(prio) if m["file"].startswith(p)), 99))
     if only:
         todo = [m for m in ms if m["id"] in only]
     print(f"stage {stage}: {len(todo)} mutants to do", flush=True)
